@@ -649,8 +649,11 @@ class RateModel:
                 elif v[0] == "meth" and v[1] == SELF and v[2] == "register":
                     args = v[3]
                     kws = dict(v[4])
-                    name = simp(args[0])
-                    var = simp(args[1]) if len(args) > 1 else simp(kws.get("variable"))
+                    # (register(name, variable, force_overwrite) -- each argument positional or by keyword)
+                    if not args and "name" not in kws:
+                        continue
+                    name = simp(args[0]) if args else simp(kws["name"])
+                    var = simp(args[1]) if len(args) > 1 else simp(kws.get("variable")) if kws.get("variable") is not None else None
                     force = (len(args) > 2 and args[2] == ("const", True)) or kws.get("force_overwrite") == ("const", True)
                     sym = val = kind = None
                     if var and var[0] == "tuple" and len(var[1]) == 3:
